@@ -505,3 +505,46 @@ def multi_scc_spec(g):
         rules.append({'lhs': n, 'nodes': [], 'ext': [], 'edges': [{'label': 'b%d' % i, 'att': [], 'id': None}]})
     g.shuffle(rules)
     return {'domains': {'A': {'kind': 'range', 'size': 2}}, 'terms': terms, 'nts': nts, 'start': 'S', 'rules': rules}
+
+
+def add_onehot_terminals(spec, g):
+    """unary indicator factors stored as one-hot patterns (a single physical element behind a SumAxis), used (a) on some
+    node of an existing rule and (b) in an extra rule of some nonterminal on ONE internal node with two different
+    indicators -- a rule whose sum-product is zero because the two patterns fail to unify (the einsum's zero-result path)"""
+    labs = [nl for nl in sorted(spec['domains']) if dom_size(spec['domains'][nl]) >= 2]
+    if not labs:
+        return spec
+    nl = g.choice(labs)
+    n = dom_size(spec['domains'][nl])
+    idx = g.sample(range(n), 2)
+    names = []
+    for i in idx:
+        name = 'is%d_%s' % (i, nl)
+        w = g.choice([1.0, 1.0, round(0.2 + 0.6 * g.random(), 3)])
+        spec['terms'][name] = {'type': [nl], 'weights': [w if k == i else 0.0 for k in range(n)],
+                               'pattern': {'physical': w, 'vaxes': [{'before': i, 'term': [], 'after': n - 1 - i}], 'default': 0.0}}
+        names.append(name)
+    rules = [r for r in spec['rules'] if any(v['label'] == nl for v in r['nodes'])]
+    if rules and g.random() < 0.6:
+        r = g.choice(rules)
+        v = g.choice([i for i, x in enumerate(r['nodes']) if x['label'] == nl])
+        r['edges'].append({'label': names[0], 'att': [v], 'id': None})
+    # the dead rule
+    cands = sorted(spec['nts'])
+    scalar = [x for x in cands if not spec['nts'][x]['type'] and any(r['lhs'] == x for r in spec['rules'])]
+    # nonterminals all of whose rules go through other nonterminals: there the dead rule is the only contribution of the
+    # first solver iteration
+    baseless = [x for x in cands if any(r['lhs'] == x for r in spec['rules'])
+                and all(any(e['label'] in spec['nts'] for e in r['edges']) for r in spec['rules'] if r['lhs'] == x)]
+    if baseless and g.random() < 0.5:
+        lhs = g.choice(baseless)
+    else:
+        lhs = g.choice(scalar) if scalar and g.random() < 0.6 else g.choice(cands)
+    if any(r['lhs'] == lhs for r in spec['rules']):
+        st = spec['nts'][lhs]['type']
+        nodes = [{'label': x, 'id': None} for x in st] + [{'label': nl, 'id': None}]
+        k = len(nodes) - 1
+        spec['rules'].insert(0 if g.random() < 0.5 else g.randrange(len(spec['rules']) + 1),
+                             {'lhs': lhs, 'nodes': nodes, 'ext': list(range(len(st))),
+                              'edges': [{'label': names[0], 'att': [k], 'id': None}, {'label': names[1], 'att': [k], 'id': None}]})
+    return spec
